@@ -1998,16 +1998,23 @@ impl RepoSim {
             simplify_ancestor_merge: d.chance(1, 4),
         };
         let mut auto: Vec<(Commit, Option<Commit>)> = vec![];
-        tx.repo_mut()
-            .rebase_descendants_with_options(&RevsetExpression::none(), &options, |old, rebased| {
-                let new = match rebased {
-                    RebasedCommit::Rewritten(c) => Some(c),
-                    RebasedCommit::Abandoned { .. } => None,
-                };
-                auto.push((old, new));
-            })
-            .block_on()
-            .map_err(|e| CmdError::Commit(err_chain(&e)))?;
+        // Commands that rewrote nothing need not call rebase_descendants (the CLI
+        // does not, e.g. `jj new`); calling it re-normalises the heads, which
+        // would hide a head set left un-normalised by an incremental update.
+        if tx.repo().has_rewrites() || d.chance(1, 2) {
+            tx.repo_mut()
+                .rebase_descendants_with_options(&RevsetExpression::none(), &options, |old, rebased| {
+                    let new = match rebased {
+                        RebasedCommit::Rewritten(c) => Some(c),
+                        RebasedCommit::Abandoned { .. } => None,
+                    };
+                    auto.push((old, new));
+                })
+                .block_on()
+                .map_err(|e| CmdError::Commit(err_chain(&e)))?;
+        } else {
+            shared.model.lock().unwrap().probe("tx_without_rebase_descendants");
+        }
         for (old, new) in &auto {
             rec.auto_rebased.push(old.id().clone());
             if let Some(n) = new {
@@ -3086,7 +3093,9 @@ impl RepoSim {
                 exempt_roots.push(c.clone());
             }
         }
-        let exempt = g.ancestors(&exempt_roots);
+        // ancestry through the backend, not only through what is visible now:
+        // an exempting commit may itself have been abandoned later
+        let exempt = Graph::load(repo.store(), exempt_roots.clone()).ancestors(&exempt_roots);
         let never_hidden: HashSet<CommitId> = published.iter().flat_map(|t| t.still_visible_gone.iter().cloned()).collect();
         for (old, (by, ch)) in &gone_commits {
             if exempt.contains(old) || never_hidden.contains(old) {
